@@ -195,7 +195,7 @@ func init() {
 				"TypedBucket.IterateStringList", "TypedBucket.IterateStringListInDirection/fwd", "TypedBucket.IterateStringListInDirection/rev",
 				"setIndex.OpenValueCursor/fwd", "setIndex.OpenValueCursor/rev", "setIndex.OpenKeyCursor/fwd", "setIndex.OpenKeyCursor/rev",
 				"GetRelatedEntitiesCursor/fwd", "GetRelatedEntitiesCursor/rev", "LinkCollection.IterateLinks", "RefCountedLinkCollection.IterateLinks/fwd", "RefCountedLinkCollection.IterateLinks/rev",
-				"setSymbolRuntime.OpenCursor", "IterateIds", "IterateValidIds", "IterateIds(extended child store)", "IterateValidIds(extended child store)", "IterateIds(filtered)", "NewFilteredCursor", "TreeSet.ToCursor/fwd", "TreeSet.ToCursor/rev", "NewUnionSetCursor/fwd", "NewUnionSetCursor/rev",
+				"setSymbolRuntime.OpenCursor", "setSymbolRuntime.OpenCursor (reopened on a row without the bucket)", "setSymbolRuntime.OpenCursor (reopened on another row)", "IterateIds", "IterateValidIds", "IterateIds(extended child store)", "IterateValidIds(extended child store)", "IterateIds(filtered)", "NewFilteredCursor", "TreeSet.ToCursor/fwd", "TreeSet.ToCursor/rev", "NewUnionSetCursor/fwd", "NewUnionSetCursor/rev",
 				"IteratorMatchingAnyOf/1", "IteratorMatchingAnyOf/2/fwd", "IteratorMatchingAnyOf/2/rev", "IteratorMatchingAllOf/1", "IteratorMatchingAllOf/2", "IteratorMatchingAllOf/3 order 0", "IteratorMatchingAllOf/3 order 3", "IteratorMatchingAllOf/3 order 5", "IteratorMatchingAllOf/3 order 7", "IteratorMatchingAnyOf/3", "EmptyCursor", "stackedCursor(dotted set)"}}
 		},
 	})
@@ -259,6 +259,10 @@ func runC14(c *core.Ctx, idx int) {
 			}
 		}
 		if err := hst.Store.Create(ctx, &schema.Ent{Id: "hub", Typ: "hubs", V: map[string]any{"lst": set, "keys": ne}}); err != nil {
+			return err
+		}
+		// a hub whose set buckets do not exist at all (absent, not empty)
+		if err := hst.Store.Create(ctx, &schema.Ent{Id: "hub-none", Typ: "hubs", NilAbsent: true, V: map[string]any{"lst": nil, "keys": nil}}); err != nil {
 			return err
 		}
 		if err := hst.Store.Create(ctx, &schema.Ent{Id: "hub-other", Typ: "hubs", V: map[string]any{"lst": []string{"zz"}, "keys": []string{}}}); err != nil {
@@ -369,6 +373,20 @@ func runC14(c *core.Ctx, idx int) {
 		add(c14Kind{name: "setSymbolRuntime.OpenCursor", strSeek: true, set: set, open: func() ast.SetCursor {
 			sym := hst.Store.GetSymbol("lst").(boltz.RuntimeEntitySetSymbol)
 			return sym.OpenCursor(tx, []byte("hub"))
+		}})
+		// the same runtime symbol reopened for another row after it was left on an element of this one
+		add(c14Kind{name: "setSymbolRuntime.OpenCursor (reopened on a row without the bucket)", strSeek: true, set: nil, open: func() ast.SetCursor {
+			sym := hst.Store.GetSymbol("lst").(boltz.RuntimeEntitySetSymbol)
+			_ = sym.OpenCursor(tx, []byte("hub")) // left undrained
+			return sym.OpenCursor(tx, []byte("hub-none"))
+		}})
+		add(c14Kind{name: "setSymbolRuntime.OpenCursor (reopened on another row)", strSeek: true, set: []string{"zz"}, open: func() ast.SetCursor {
+			sym := hst.Store.GetSymbol("lst").(boltz.RuntimeEntitySetSymbol)
+			cur := sym.OpenCursor(tx, []byte("hub"))
+			if cur.IsValid() {
+				cur.Next()
+			}
+			return sym.OpenCursor(tx, []byte("hub-other"))
 		}})
 		add(c14Kind{name: "IterateIds", seekable: true, set: ne, open: func() ast.SetCursor { return ist.Store.IterateIds(tx, ast.BoolNodeTrue) }})
 		add(c14Kind{name: "IterateValidIds", seekable: true, set: ne, open: func() ast.SetCursor { return ist.Store.IterateValidIds(tx, ast.BoolNodeTrue) }})
